@@ -126,6 +126,15 @@ func generatedBatchModels(r *rand.Rand) []*batchModel {
 		mk: one(func(n int) []int { return []int{n, 2, 7} }, 1),
 		bytes: buildModel([]*onnx.NodeProto{nd("Conv", []string{"x", "k"}, []string{"y"}, aIs("dilations", 2))},
 			map[string]tensor.Tensor{"k": f32T(r, 1, 2, 2, 2)}, []string{"x"}, []int{3}, []string{"y"})})
+	// 1-D convolutions that pad the END of the signal (explicit pads, SAME_UPPER), several channels
+	add(&batchModel{name: "conv1d-end-padding", inputs: []string{"x"}, inAxis: []int{0}, outputs: []string{"y"}, outAxis: []int{0},
+		mk: one(func(n int) []int { return []int{n, 2, 6} }, 1),
+		bytes: buildModel([]*onnx.NodeProto{nd("Conv", []string{"x", "k", "kb"}, []string{"y"}, aIs("pads", 0, 2))},
+			map[string]tensor.Tensor{"k": f32T(r, 1, 3, 2, 3), "kb": f32T(r, 1, 3)}, []string{"x"}, []int{3}, []string{"y"})})
+	add(&batchModel{name: "conv1d-same-upper", inputs: []string{"x"}, inAxis: []int{0}, outputs: []string{"y"}, outAxis: []int{0},
+		mk: one(func(n int) []int { return []int{n, 2, 7} }, 1),
+		bytes: buildModel([]*onnx.NodeProto{nd("Conv", []string{"x", "k"}, []string{"y"}, aS("auto_pad", "SAME_UPPER"), aIs("strides", 2))},
+			map[string]tensor.Tensor{"k": f32T(r, 1, 2, 2, 4)}, []string{"x"}, []int{3}, []string{"y"})})
 	// 5. recurrent operators: batch is axis 1 of X and of the states, axis 2 of Y
 	for _, op := range []struct {
 		name string
